@@ -49,7 +49,7 @@ AdjOK(totalSum, headAdj, dirSum, tablesSum) ==
 \* ---- the mathematics
 \* @type: <<Int, Int>> => Int;
 Val(a) == a[1] * 65536 + a[2]
-Two32 == 4294967296
+Two32 == 65536 * 65536            \* 4294967296 (TLC cannot read a literal this big)
 Limb(x) == x >= 0 /\ x <= 65535
 \* @type: <<Int, Int>> => Bool;
 IsU32(a) == Limb(a[1]) /\ Limb(a[2])
